@@ -74,6 +74,18 @@ def gen_dist(rng, case, events=None, kind=None, normalised=True, allow_zero=True
             data[r] = ww / ww.sum()
     tbl = ProbabilityTable(data=data, table_index=TableIndex(field_names=("row", "event"),
                                                            field_domains=(tuple(rowkeys), tuple(ev))))
+    if n >= 3 and rng.random() < 0.4:
+        # the same row selected with its events in another order (a sub-table indexed by a list of inner keys):
+        # labels and numbers must move together
+        perm = list(ev)
+        if rng.random() < 0.5:
+            mid = perm[1:-1]
+            rng.shuffle(mid)
+            perm = [perm[0]] + mid + [perm[-1]]          # first and last stay in place
+        else:
+            rng.shuffle(perm)
+        case.count("table_rows_selected_in_another_event_order")
+        return tbl[rowkeys[pick], perm], ref, kind
     return tbl[rowkeys[pick]], ref, kind
 
 
@@ -208,6 +220,31 @@ def run_case(case, rng):
     mu = case.call("marginalize(unnormalised)", du.marginalize, lambda e: 0)
     if mu is not case.FAIL:
         same(case, mu, {0: tot}, "marginalize:mass-not-preserved(unnormalised)")
+
+    # chain / expectation / joint on unnormalised priors, in particular ONE-event priors whose mass is not 1
+    one_e = rng.choice(EVENTS)
+    one_m = rng.choice([0.4, 0.25, 2.0, 0.0])
+    d_one = DictDistribution({one_e: one_m}) if rng.random() < 0.7 else one_m * DeterministicDistribution(one_e)
+    for nm, dd, rr in (("unnormalised", du, ru), ("one-event", d_one, {one_e: one_m})):
+        kd, kr, _ = gen_dist(rng, case, events=["u", "v", "w", 0, (1, 2)])
+        cc = case.call(f"chain({nm} prior)", dd.chain, lambda e: kd, facts=dict(prior=nm))
+        case.count("unnormalised_prior_ops")
+        if cc is not case.FAIL:
+            tt = math.fsum(rr.values())
+            same(case, {e: p for e, p in as_dict(cc).items() if p != 0}, {y: tt * q for y, q in kr.items() if tt * q != 0},
+                 "chain:not-law-of-total-probability", f"{nm} prior {rr!r}", prior=nm)
+        ee = case.call(f"expectation({nm} prior)", dd.expectation, lambda e: 3.0, facts=dict(prior=nm))
+        if ee is not case.FAIL:
+            case.check(_close(float(ee), 3.0 * math.fsum(rr.values())), "expectation:wrong", f"{nm} prior {rr!r}: {ee!r}", prior=nm)
+        jj = case.call(f"joint({nm} prior)", dd.joint, d2, facts=dict(prior=nm))
+        if jj is not case.FAIL:
+            same(case, {e: p for e, p in as_dict(jj).items() if p != 0},
+                 {(a, b): p * q for a, p in rr.items() for b, q in r2.items() if p * q != 0}, "joint:not-product-measure",
+                 f"{nm} prior", prior=nm)
+        mm = case.call(f"marginalize({nm} prior)", dd.marginalize, lambda e: "all", facts=dict(prior=nm))
+        if mm is not case.FAIL:
+            case.check(_close(float(as_dict(mm).get("all", 0.0)), math.fsum(rr.values())), "marginalize:mass-not-preserved(unnormalised)",
+                       f"{nm} prior {rr!r}: {as_dict(mm)!r}", prior=nm)
 
     # ---- softmax ----------------------------------------------------------------------------------------
     ev = rng.sample(EVENTS, rng.randint(1, 5))
